@@ -653,7 +653,8 @@ def ward_quick(G, feature, verbose=False):
     Features = [np.ones(2 * G.V), np.zeros((2 * G.V, feature.shape[1])),
                 np.zeros((2 * G.V, feature.shape[1]))]
     Features[1][:G.V] = feature
-    Features[2][:G.V] = feature ** 2
+    # squares of the float copy: integer features would wrap around
+    Features[2][:G.V] = Features[1][:G.V] ** 2
     n = G.V
     nbcc = G.cc().max() + 1
 
@@ -928,7 +929,8 @@ def ward(G, feature, verbose=False):
     Features = [np.ones(2 * G.V), np.zeros((2 * G.V, feature.shape[1])),
                 np.zeros((2 * G.V, feature.shape[1]))]
     Features[1][:G.V] = feature
-    Features[2][:G.V] = feature ** 2
+    # squares of the float copy: integer features would wrap around
+    Features[2][:G.V] = Features[1][:G.V] ** 2
 
     # prepare a graph with twice the number of vertices
     # this graph will contain the connectivity information
